@@ -108,3 +108,27 @@ prop(
                  "without background threads (stepping API); threaded shutdown: C15"],
     explanation="kill_logs modelled in its exact order, leftover log files replayed at open; theorem: after drop+open the tables alone hold every accepted write",
 )
+
+prop(
+    id="C07", module="Properties.C07", vfile="Properties/C07.v", level="proof", subcmd="c07",
+    theorems=["C07_positive_readable", "C07_logged_iff"],
+    counts={"quick": 1600, "thorough": 60000, "search": 8000},
+    rule=HIST_RULE + "; C07 histories use counted columns only (hash and btree), operations set / dereference / reference, "
+         "value a fixed function of the key; in addition the value iteration of every hash counted column is taken after every step "
+         "(judged by the oracle whenever nothing is queued, compared with the model after every reopen)",
+    assumptions=["counts stay below the saturating 32-bit limit (the model counts in unbounded N)",
+                 "crash recovery of counted columns is exercised by the C02 check"],
+    explanation="same pipeline model; theorems by the cell-level invariant (logical cell = fold of accepted transactions) and a relation "
+                "between stored counter and specified count",
+)
+prop(
+    id="C08", module="Properties.C08", vfile="Properties/C08.v", level="proof", subcmd="c08",
+    theorems=["C08_rejected_no_trace", "C08_bg_error_refusal", "C08_rejected_iff_invalid"],
+    counts={"quick": 1600, "thorough": 60000, "search": 8000},
+    rule=HIST_RULE + "; C08 histories contain a transaction with an invalid operation (reference on an uncounted column) at a random "
+         "position among valid ones in about every 4th commit, across 1-3 columns of mixed kinds; the oracle demands that every read "
+         "after the rejected call equals the read before it, now and after every later step and reopen",
+    assumptions=["error classes covered here: reference on a column without counting (hash and btree); tree-operation classes are covered by the multitree checks (C10/C11)",
+                 "background-error refusal is proved on the model and exercised by the C16 check"],
+    explanation="commit of the pipeline model reproduces the order of checks and side effects of commit_changes/commit_raw; theorem: an error returns the unchanged state",
+)
